@@ -20,6 +20,11 @@ def gen_case(rng, thorough):
     self_cmp = rng.random() < 0.3
     l1 = rng.randint(1, lmax)
     l2 = l1 if self_cmp else rng.randint(1, lmax)
+    region_c = (not self_cmp) and rng.random() < 0.25
+    if region_c:
+        # more rows than columns with a narrow window: the compact layout has shifted rows (region C)
+        l1 = rng.randint(6, lmax + 3)
+        l2 = rng.randint(max(2, l1 - 4), l1 - 1)
     step = rng.choice([1.0, 1.0, 0.5])
     s1 = [step * rng.randint(-3, 3) for _ in range(l1)]
     if self_cmp:
@@ -42,9 +47,14 @@ def gen_case(rng, thorough):
     delta_factor = rng.choice([1.0, 0.5, 0.9, 0.25])
     penalty = rng.choice([None, None, 0.0, 0.1, 0.5, 1.0, tau / 10])
     window = rng.choice([None, None, 1, 2, 3, 5])
+    if region_c:
+        window = rng.choice([1, 1, 2])
+        penalty = rng.choice([None, 0.0])        # the compact search is compared with the model without penalty
     only_triu = True if self_cmp and rng.random() < 0.8 else (rng.random() < 0.2)
     calls = []
-    for ci in range(rng.randint(1, 3)):
+    if region_c:
+        calls.append({"k": None, "minlen": rng.choice([1, 2]), "restart": True})
+    for ci in range(0 if region_c else rng.randint(1, 3)):
         calls.append({"k": rng.choice([1, 2, 3, None]), "minlen": rng.choice([1, 2, 2, 3]),
                       "restart": True if ci == 0 else rng.random() < 0.5})
     slices = []
@@ -92,9 +102,13 @@ def check_matches(res, case, engine, lcres, compact):
     start = unhex(lcres["start"])
     used = set()
     ok = True
+    exact_state = True
     for call, ms in zip(case["calls"], lcres["calls"]):
         if call["restart"] and compact:
             used = set()            # the compact variant really starts again (the matrix is positivized)
+            exact_state = True
+        if call["minlen"] > 1:
+            exact_state = False     # candidates shorter than minlen are negated without being reported
         if call["k"] is not None and len(ms) > call["k"]:
             res.violations.append({"clause": "at most k matches", "engine": engine, "case": case})
             ok = False
@@ -117,6 +131,16 @@ def check_matches(res, case, engine, lcres, compact):
                     res.violations.append(dict(info, clause="a match runs through positive cells", cell=[x, y], value=v))
                     ok = False
                     break
+            # traced from a maximum: exact when no candidate has been discarded as too short so far in this epoch
+            # (then the negated cells are exactly the cells of the matches seen)
+            if exact_state:
+                best = max((v for i_, row in enumerate(start) for j_, v in enumerate(row)
+                            if v is not None and i_ >= 1 and j_ >= 1 and (i_ - 1, j_ - 1) not in used), default=None)
+                v0 = start[m["row"]][m["col"]] if m["row"] < len(start) and m["col"] < len(start[0]) else None
+                if best is not None and (v0 is None or v0 < best):
+                    res.violations.append(dict(info, clause="a match is traced from a maximum of the cells not used "
+                                                            "so far", start_value=v0, maximum=best))
+                    ok = False
             if used & set(p):
                 res.violations.append(dict(info, clause="a match never reuses a cell of an earlier match",
                                            shared=sorted(used & set(p))[:5]))
